@@ -255,7 +255,7 @@ impl CommonInformationEntry {
 
         write_nop(
             w,
-            encoding.format.word_size() as usize + w.len() - length_base,
+            encoding.format.initial_length_size() as usize + w.len() - length_base,
             encoding.address_size,
         )?;
 
@@ -363,7 +363,7 @@ impl FrameDescriptionEntry {
 
         write_nop(
             w,
-            encoding.format.word_size() as usize + w.len() - length_base,
+            encoding.format.initial_length_size() as usize + w.len() - length_base,
             encoding.address_size,
         )?;
 
